@@ -2,12 +2,35 @@
    Statements about PanCore's frames (a frame = a store + the link to the frame
    where the function literal was written) for all frames, names, values,
    argument lists and every lower interpreter level. Proofs: Core/ScopeProofs.v.
-   (The whole-program statement "no evaluation changes a frame other than the
-   current one, fresh ones, or a closure's own frame" is the goal of
-   Core/FrameLocality.v when present; the theorems here are its building blocks.) *)
+   The whole-program statement is C03_frame_locality (Core/FrameLocality.v,
+   induction on the fuel level through every construct and every modelled
+   built-in); the other theorems are the per-primitive facts. *)
 From Coq Require Import ZArith String List Bool Arith.
-From PanVerif Require Import Core.Syntax Core.Values Core.Interp Core.ScopeProofs.
+From PanVerif Require Import Core.Syntax Core.Values Core.Interp Core.ScopeProofs Core.FrameLocality.
 Import ListNotations.
+
+(* For every program fragment, environment, state and amount of fuel: evaluating it
+   changes no frame that existed before, other than the frame it runs in and frames
+   that are a closure's own dedicated frame (where iterators keep their progress).
+   So a function body can never change an enclosing scope, the caller's scope, the
+   global scope or another activation of the same function (recursion is safe). *)
+Theorem C03_frame_locality :
+  forall W fuel e env st r st',
+    r_expr (level W fuel) e env st = (r, st') ->
+    length (frames st) <= length (frames st') /\
+    forall g, g < length (frames st) -> g <> env -> ~ clof st g ->
+              nth_error (frames st') g = nth_error (frames st) g.
+Proof. exact frame_locality. Qed.
+Print Assumptions C03_frame_locality.
+
+Theorem C03_frame_locality_bodies :
+  forall W fuel ss env st r st',
+    r_body (level W fuel) ss env st = (r, st') ->
+    length (frames st) <= length (frames st') /\
+    forall g, g < length (frames st) -> g <> env -> ~ clof st g ->
+              nth_error (frames st') g = nth_error (frames st) g.
+Proof. exact frame_locality_body. Qed.
+Print Assumptions C03_frame_locality_bodies.
 
 (* assignment (and compound assignment, which the parser desugars to it) evaluates its
    right-hand side and then writes the CURRENT frame ... *)
